@@ -71,6 +71,15 @@ let () =
        | Prelude.Err e -> "err:" ^ string_of_int (int_of_n e)
        | Prelude.Crash _ -> "PANIC")
     | _ -> "BADARGS");
+  register "hdr_get" (function
+    | [hs; name] ->
+      let hs = headers_of hs in
+      let n = Http.hname_of (bytes_of_hex name) in
+      Printf.sprintf "first=%s all=[%s] rest=%s"
+        (match Http.hget n hs with Some v -> hex_of_bytes v | None -> "none")
+        (Stdlib.String.concat "," (Stdlib.List.map hex_of_bytes (Http.hget_all n hs)))
+        (show_headers (Http.hremove n hs))
+    | _ -> "BADARGS");
   register "cookies" (function
     | [v] ->
       let cs = Http.cookies_of [ (Http.hname_of (bytes_of_hex "636f6f6b6965"), bytes_of_hex v) ] in
